@@ -1,3 +1,4 @@
 import EdzedProofs.Basic
 import EdzedProofs.Counter
+import EdzedProofs.Cron
 import EdzedProofs.Simulate
